@@ -288,6 +288,8 @@ def check(ctx, tier):
                                                                    skip_funcs={"shexer.shaper:Shaper.__init__"})[0], ctx, "D-e", default=[])
     obs += ctx.attempt(example_rendering_table, ctx, "D-f", default=[])
     obs += ctx.attempt(class_without_instances_row, ctx, "D-a", default=[])
+    from ..rules import profile as _profile
+    obs += ctx.attempt(lambda c, cl: _profile.examples_table(c, cl)[0], ctx, "D-e", default=[])
     exceptions.apply(obs)
     return {"obs": obs, "floors": [Floor("stem / fold table rows", rows, 20), Floor("example bookkeeping sites", n_ex, 6),
                                    Floor("option control sites", nsites, 15)],
